@@ -64,6 +64,8 @@ MEANING = {
     "first_is_not_the_nearest": "intersects_id(multiple_hits=False) is not the crossing of least t",
     "not_the_nearest": "intersects_first is not the crossing of least t (-1 when none)",
     "wrong": "intersects_any differs from 'some triangle is crossed'",
+    "phantom_hit_coplanar_triangle": "a first-hit query names a triangle whose plane contains the ray although the "
+                                     "ray is clear of the triangle (and intersects_location reports no such hit)",
     "point_is_not_nearest_point_of_reported_triangle":
         "the closest point is not the point of the reported triangle nearest to the query",
     "reported_triangle_is_not_a_nearest_one": "another triangle is strictly nearer than the reported one",
@@ -187,6 +189,28 @@ def through_box(O, k, d, lo, hi):
     return t1 is None or t0 <= t1
 
 
+def inplane_rays(me, oblique):
+    """Rays lying in the supporting plane of some face (of an oblique / an axis-aligned face): a property
+    of the input; whether such a ray touches the triangle (degenerate) or is clear of it is TLC's call."""
+    V = np.array(me["verts"], dtype=np.int64)
+    out = set()
+    for k, origins in ((1, ORIG1), (2, ORIG2), (4, ORIG4)):
+        O = np.array(origins, dtype=np.int64)
+        for f in me["faces"]:
+            a, b, c = V[f]
+            n = np.cross(b - a, c - a)
+            if (np.count_nonzero(n) >= 2) != oblique:
+                continue
+            dirs = [d for d in DIRS if int(np.dot(d, n)) == 0]
+            for o in O[(O - k * a) @ n == 0].tolist():
+                out.update((tuple(o), k, d) for d in dirs)
+    return sorted(out)
+
+
+# id in known_findings.jsonl under which the lead may list the embree coplanar phantom hit
+DEVIATIONS = {"phantom_hit_coplanar_triangle": "CoplanarRayPhantomHit"}
+
+
 def ray_items(tier, mi, me, rs):
     rays = []
     if tier == "thorough":
@@ -209,6 +233,10 @@ def ray_items(tier, mi, me, rs):
                 cand = [O for O in origins if through_box(O, k, d, lo, hi)]
                 rays += [(cand[j], k, d) for j in rs.choice(len(cand), min(nax, len(cand)), replace=False)]
                 rays += [(origins[j], k, d) for j in rs.choice(len(origins), 10, replace=False)]
+        # rays lying in the plane of a face: all of them for oblique faces (up to 600), a sample otherwise
+        for oblique, cap in ((True, 600), (False, 200)):
+            fam = inplane_rays(me, oblique)
+            rays += [fam[j] for j in rs.choice(len(fam), min(cap, len(fam)), replace=False)] if fam else []
         rays = sorted(set(rays))
         rs.shuffle(rays)
     return [{"kind": "ray", "mi": mi, "O": list(O), "k": k, "d": list(d)} for O, k, d in rays]
@@ -559,7 +587,7 @@ def main(argv):
                 detail = {"mesh": me["name"], "vertices": me["verts"], "faces": me["faces"],
                           "meaning": meaning(cl)}
                 detail.update({k: v for k, v in c.items() if k not in ("id", "m", "laws")})
-                V.violation(cl, detail)
+                V.violation(cl, detail, DEVIATIONS.get(cl.split(":")[-1]))
         for kind in ("ray", "pt"):
             pool = [c for c in cases if c["kind"] == kind and not verdicts.get(c["id"], "").startswith("SKIP_")
                     and (kind == "pt" or (c["eng"] and len(c["eng"][0]["locm"]) >= 2))]
@@ -608,7 +636,8 @@ def main(argv):
             "with at least two odd-quarter coordinates" if big else
             "quick: per mesh a seeded sample of rays (origins {-2..5}^3, half-odd {-3/2..9/2}^3 and odd-quarter "
             "{-7/4..21/4}^3, directions {-2..2}^3 \\ 0): ~2300 random (origin, direction) pairs aimed through the "
-            "bounding box of the near bodies, 400 unaimed ones, all six axis directions x up to 160 origins; and "
+            "bounding box of the near bodies, 400 unaimed ones, all six axis directions x up to 160 origins, up to "
+            "800 rays lying in the plane of a face (all of those in the plane of an oblique face, up to 600); and "
             "up to 1000 of the 3375 "
             "odd-quarter points of {-7/4..21/4}^3 (300 of them inside the bounding box)"),
         "snapping": ("hit locations: Fraction.limit_denominator(%d), residual 1e-9 (native engine) / 1e-4 (embree "
